@@ -125,6 +125,9 @@ def run(run, tier, seed, replay=None):
     from norminette.errors import HumanizedErrorsFormatter
     from norminette.file import File
     cat = dict(NE.errors)
+    # the PUBLISHED catalogue is the pinned one: a reworded entry must not hide behind the table it was edited in
+    with open(os.path.join(common.VERIF, "tools", "harness", "data", "catalogue_pinned.json")) as f:
+        cat.update(json.load(f))
     tmp = tempfile.mkdtemp(prefix="nvc08_")
     try:
         if replay and "source" in replay["data"]:
